@@ -28,7 +28,8 @@ ASSUMPTIONS = [
 RULE = ('a case is a whole HISTORY (every state of it is observed: ~1,000 observed states quick, ~50,000 thorough); '
         'random histories over the full alphabet (<=40 operations quick, <=400 thorough, <=6 live handles) on 1-2 '
         'initial transactions of either class, plus all histories of length <=2 (quick) / <=3 (thorough) over a '
-        'reduced alphabet of 13 operations; a separate out-of-range stream (unconstrained). non-trivial = verdict '
+        'reduced alphabet of 13 operations; a separate out-of-range stream (unconstrained); engine 902: blocks built over '
+        'mutable transactions, headers and witness objects (immutability, cached ids, later edits). non-trivial = verdict '
         'constrained; distinct by case text')
 IN_COQ_SAMPLE = 4
 
@@ -45,6 +46,8 @@ def corpus():
 
 
 def classify(e, a, iv):
+    if e == 902:
+        return 'values'
     n = len(a[1])
     return 'len<=3' if n <= 3 else 'len<=10' if n <= 10 else 'len<=40' if n <= 40 else 'len>40'
 
@@ -341,4 +344,13 @@ def generate(rng, tier, boost):
         cases.append((901, rand_history(rng, rng.randrange(100, 401))))
     for _ in range(60 if big else 12):
         cases.append((901, rand_history(rng, rng.randrange(2, 12), malformed=True)))
+    # engine 902: classes that are values in the model (block over mutable transactions, header, witness objects)
+    from . import wiregen as W
+    for _ in range(300 if big else 40):
+        P = Pool(rng)
+        txs = [P.tx(nin=rng.choice([1, 2])) for _ in range(rng.choice([0, 1, 1, 2, 3]))]
+        for t in txs:
+            if len(t[3]) > len(t[1]):
+                t[3] = t[3][:len(t[1])]
+        cases.append((902, [W.rand_header(rng), txs, rng.choice(I32)]))
     return cases
